@@ -239,6 +239,24 @@ def exhaustive(tier):
                     for k in sorted({0, 1, size, size + 1}):
                         yield {"kind": "list", "item": "int", "init": init, "ops": [{"op": "setslice", "s": (a, b, step), "items": list(range(50, 50 + k)), "ik": "list"}]}
     yield from exhaustive_lookups()
+    yield from exhaustive_equivalent_keys(tier)
+
+
+def exhaustive_equivalent_keys(tier):
+    """Typed dicts whose key field normalises: every sequence of 2-3 pairs over differently spelled but equivalent keys,
+    handed over in every call form (the LAST pair for a normalised key wins, as in dict.update over the normalised pairs)."""
+    import itertools
+    for (kk, vk), spellings, vals in ((("str", "int"), ["a", "A", " a", "b"], [1, 2, 3]), (("int", "str"), [7, "7", "07", 8], ["x", "y", "z"])):
+        for n in (2, 3):
+            for keys in itertools.product(spellings, repeat=n):
+                if len(set(map(str, keys))) == n and tier == "quick" and n == 3 and keys[0] == keys[-1]:
+                    continue
+                pairs = [(k, vals[i]) for i, k in enumerate(keys)]
+                for dk in ("pairs", "tuple", "iterator", "generator", "dict"):
+                    for init in ([], [(spellings[1], vals[0])]):
+                        yield {"kind": "dict", "key": kk, "value": vk, "init": init, "ops": [{"op": "update", "pairs": pairs, "dk": dk, "kw": {}}]}
+                for dk in ("pairs", "dict"):
+                    yield {"kind": "dict", "key": kk, "value": vk, "init": [], "ops": [{"op": "ior", "pairs": pairs, "dk": dk}]}
 
 
 def exhaustive_lookups():
